@@ -47,10 +47,11 @@ KINDS = ["unix", "tcp", "fifo", "unixgram", "udp", "stdin", "unix", "fifo"]
 # TLC configs
 # ---------------------------------------------------------------------------
 def _cfg(spec, configs=None, shapes=None, maxchunks=1000, on=(), invariants=(), properties=(),
-         tracefile=None, postcondition=None):
+         tracefile=None, postcondition=None, relaxed=False):
     L = ["SPECIFICATION %s" % spec, "CONSTANTS"]
     if tracefile:
-        L += ['  TraceFile = "%s"' % tracefile, "  Configs = {}", "  ChunkShapes = {}"]
+        L += ['  TraceFile = "%s"' % tracefile, "  Relaxed = %s" % ("TRUE" if relaxed else "FALSE"),
+              "  Configs = {}", "  ChunkShapes = {}"]
     else:
         L += ["  Configs <- %s" % configs, "  ChunkShapes <- %s" % shapes]
     L.append("  MaxChunks = %d" % maxchunks)
@@ -249,6 +250,9 @@ def _run_proc(ctx, binary, cases, par, deadline, tag):
             crash = Crash(r.stderr, r.returncode)
         else:
             raise vlib.InfraError("c17 harness exited %d (%s):\n%s" % (r.returncode, tag, r.stderr[-3000:]))
+    if crash:
+        crash.order = [c["id"] for c in cases]
+        crash.events = events
     return events, crash
 
 
@@ -325,13 +329,13 @@ def renumber(recs):
     return recs
 
 
-def validate(ctx, traces, on=(), label="traces", invariants=("TSafety",)):
+def validate(ctx, traces, on=(), label="traces", invariants=("TSafety",), relaxed=False):
     """traces: {key: [records]} -> (set of accepted keys, {key: index of the first event that could not be
     explained, relative to the trace})."""
     allkeys = list(traces)
     if not allkeys:
         return set(), {}
-    nshard = max(1, min(vlib.NCPU // 2 or 1, 6, len(allkeys) // 40 or 1))
+    nshard = max(1, min(vlib.NCPU // 2 or 1, 6, len(allkeys) // (2 if relaxed else 40) or 1))
     results, errs = [], []
 
     def work(si, keys):
@@ -344,7 +348,7 @@ def validate(ctx, traces, on=(), label="traces", invariants=("TSafety",)):
                 lines += [json.dumps(r, separators=(",", ":")) for r in recs]
             r = vlib.tlc(ctx, "TraceConnStream",
                          _cfg("TSpec", tracefile="trace.ndjson", on=on, invariants=list(invariants) if not on else [],
-                              postcondition="Post"),
+                              postcondition="Post", relaxed=relaxed),
                          workers=1, timeout=1200, extra_files={"trace.ndjson": "\n".join(lines) + "\n"},
                          label="%s-%d" % (label, si))
             acc, hw = set(), {}
@@ -436,6 +440,21 @@ def classify(ctx, binary, cases, traces, rejected, hw, deadline):
         for dev in open_devs if acc else []:
             known(ctx, dev, "%s (in combination with the other open findings)" % vlib.open_finding(ctx.prop, dev).get("what", ""))
         left -= acc
+    if left:
+        # The pruned search delays silent steps until an event needs them; should one of its "when" guards be
+        # too strict for some schedule, the complete (slow) search still decides: silent steps before any event.
+        acc, hwr = validate(ctx, {k: traces[k] for k in left}, label="relaxed", relaxed=True)
+        ctx.cov["accepted_only_by_relaxed_search"] = sorted(acc, key=str)
+        if acc:
+            vlib.log("traces explained only by the relaxed search (a pruning guard is too strict): %s" % [
+                (k, hw[k], traces[k][hw[k]] if hw[k] < len(traces[k]) else None) for k in sorted(acc, key=str)])
+        left -= acc
+        hw.update({k: hwr[k] for k in left})
+        if left and open_devs:
+            acc, _ = validate(ctx, {k: traces[k] for k in left}, on=open_devs, label="relaxed-open", relaxed=True)
+            for dev in open_devs if acc else []:
+                known(ctx, dev, "%s (relaxed search, open findings combined)" % vlib.open_finding(ctx.prop, dev).get("what", ""))
+            left -= acc
     # neither the property nor an open finding explains these: reproduce from a clean start
     for k in sorted(left, key=str)[:6]:
         case = cases.get(k)
@@ -491,6 +510,16 @@ def handle_crashes(ctx, binary, crashes, cases):
             cands = {k: to_records(e, 1, panic=True) for k, e in unf.items() if MODEL_KIND[e[0]["real"]] == "sock"}
             if cands and dev in vlib.open_devs(ctx.prop):
                 acc, _ = validate(ctx, cands, on=[dev], label="explain-panic")
+                if len(acc) != len(cands) and len(unf) == 1:
+                    # a handler of the PREVIOUS stream of this process that outlived its trace (the harness waits for
+                    # them, but cannot see every goroutine state): try the stream socket trace that ran just before
+                    k0 = list(unf)[0]
+                    before = [k for k in cr.order[:cr.order.index(k0)] if k in cr.events and complete(cr.events[k])
+                              and MODEL_KIND[cr.events[k][0]["real"]] == "sock"] if k0 in cr.order else []
+                    if before:
+                        cands = {before[-1]: to_records(cr.events[before[-1]], 1, panic=True)}
+                        base = [cases[before[-1]]] if before[-1] in cases else base
+                        acc, _ = validate(ctx, cands, on=[dev], label="explain-panic-prev")
                 if acc and len(acc) == len(cands):
                     k = sorted(acc, key=lambda x: len(cands[x]))[0]
                     known(ctx, dev, "%s; witness of this run: %s" % (
